@@ -4,7 +4,7 @@ READY = True
 SPEC = {
     "targets": ["Properties/C03.vo", "Run/C03.vo"],
     "theorems": {"Properties.C03": [
-        "C03_changes_track_renames", "C03_rename_onto_deleted_path_tracked", "C03_changes_bodies_fork_and_head", "C03_compared_versions_are_fork_and_head", "C03_changes_have_commits", "C03_git_tables",
+        "C03_changes_track_renames", "C03_rename_onto_deleted_path_tracked", "C03_copy_entry_consumes_source_record", "C03_changes_bodies_fork_and_head", "C03_compared_versions_are_fork_and_head", "C03_changes_have_commits", "C03_git_tables",
         "C03_unquote_inverts_git_quoting", "C03_match_sound", "C03_added_only_if_ambiguous", "C03_disables_order_irrelevant", "C03_state_sound", "C03_state_tables",
         "C03_changed_never_skipped", "C03_untouched_noop", "C03_untouched_moved", "C03_merge_sound", "C03_untouched_final_noop", "C03_final_state_origin", "C03_changed_final_never_skipped", "C03_history_untouched_noop", "C03_history_changed_never_skipped", "C03_classify_unfold", "C03_nonvacuous", "C03_faithful_nonvacuous"]},
     "harness_args": lambda tier: ["C03", "--n", 240 if tier == "quick" else 3000,
@@ -59,7 +59,9 @@ MANIFEST = {
             "that is untouched relative to the fork-point version of the file it descends from (enough identical base copies, same path, same set of "
             "disabled checks) is Noop in the list `pint ci` lints, and a HEAD rule whose content differs from every rule of that base version is "
             "Added/Modified/Moved there (never Noop; the merge loop cannot lose the state); the FileStatus runes, the status switch of git.Changes, "
-            "the PathType order and the `git log` arguments are regenerated from the Go AST every run. No open known finding. "
+            "the PathType order and the `git log` arguments are regenerated from the Go AST every run. One open known finding, with a machine-checked "
+            "model witness and a candidate patch: with git's copy detection on (diff.renames=copies) a copy entry makes git.Changes drop the source "
+            "file's change record, so rules changed in the source are classified unmodified. "
             "Tied to the code every run by four differential layers (real matchEntries; real git.Changes on scratch repositories; real "
             "GlobFinder+Find; the composed model classify against the real Find from raw git output) and by `pint ci` with per-state marker blocks "
             "on generated histories (add/modify/delete/rename file, rule edits incl. single map entries and trailing lines, cosmetic edits, reorders, "
